@@ -190,7 +190,7 @@ CHECKS = {
    note='Trusted: Coq kernel; PIL conversion as oracle; float32 tolerance 2.5e-7 relative on coordinates.',
    design='5/C15'),
  'C03': dict(
-   technique='Coq proof (nested induction over op trees / loop trees: parse-flatten inversion, well-formed emission under exceptions) + history-level differential with exceptions injected at every position + controller monitors on femto\'s own file',
+   technique='Coq proof (nested induction over op trees / loop trees: parse-flatten inversion, well-formed emission under exceptions) + source translator with a proved simulation (every translated method of PGMCompiler vs the model) + history-level differential with exceptions (Exception and BaseException) injected at every position + controller monitors on femto\'s own file',
    text='Props/C03.v: for every op tree and exception position the session file is the DVAR preamble plus the print of a '
         'well-formed loop tree (balanced, nested, NEXT matches FOR) and parses back to it; calls/removals of unloaded programs '
         'are refused; C03_no_error_shutter_rotation: for every tree of public operations (closed-path writes, positioning, '
@@ -201,32 +201,43 @@ CHECKS = {
         'set (known finding). Tie to /repo: random and directed op trees are run against the real PGMCompiler with real with-blocks '
         'and a user exception at every position; written-or-not, exception class, token stream and dwell are compared with '
         'the model, and femto\'s file is parsed and run on the controller model (no controller error, rotation off, shutter '
-        'closed at the end, exposure only on written paths).',
-   note='Trusted: Coq kernel, lexer, Python with/finally semantics, Ctl/Machine.v as the reference controller. That the '
+        'closed at the end, exposure only on written paths). SOURCE TIE (also re-checked on every run): harness/py2coq.py translates '
+        'the 28 bookkeeping methods of PGMCompiler from /repo/src/femto/pgmcompiler.py into Gallina (fail closed), coq/tie/PgmEquiv.v '
+        'proves that the translated session - __enter__, any tree of API calls with Python-level arguments, exceptions anywhere, '
+        '__exit__ - writes the same tokens, reports the same dwell and raises the same exception as the model (session_equiv), and '
+        'coq/tie/SrcProps.v restates C03_balanced and C03_no_error_shutter_rotation for the translated source.',
+   note='Trusted: Coq kernel, lexer, Python with/finally semantics, the translator harness/py2coq.py with the meaning it gives '
+        'the Python subset (coq/tie/PyPrelude.v, PgmState.v: floats as rationals, hand-given transform_points / _get_filepath / '
+        'header file / close) and the template table coq/tie/LineTok.v, Ctl/Machine.v as the reference controller. That the '
         'open moves are exactly those of the written paths is decided by the exposure monitor on generated instances; the '
         'theorem assumes a positioning speed that does not print as F0.000000 in the rotation lines.',
    design='5/C03'),
  'C12': dict(
-   technique='Coq proof (induction over op trees and loop trees: reported dwell = static dwell = executed dwell) + history-level differential + controller monitor',
+   technique='Coq proof (induction over op trees and loop trees: reported dwell = static dwell = executed dwell) + source translator with a proved simulation (dwell bookkeeping of the translated dwell / repeat / for_loop vs the model) + history-level differential + controller monitor',
    text='Props/C12.v: for every configuration and op tree (any nesting, None/0/negative pauses, exceptions anywhere) the dwell '
         'reported by the modelled session equals the dwell the controller executes when running the written file, from any '
         'machine state. Tie to /repo: same histories as C03; femto\'s dwell_time is compared with the model and with the '
         'dwell executed by the controller on femto\'s own file; fabrication_time of closed paths is compared with the '
-        'Gallina travel-time model and with scans x travel time of the controller trace of one compiled pass.',
-   note='Trusted: Coq kernel, lexer; float summation covered by 1e-9 (dwell) / 2e-4 (float32 fabrication_time) relative '
+        'Gallina travel-time model and with scans x travel time of the controller trace of one compiled pass. SOURCE TIE: '
+        'the methods of PGMCompiler are re-translated from /repo on every run (harness/py2coq.py) and coq/tie/PgmEquiv.v proves the '
+        'translated session equal to the model\'s, dwell total included (SRC_C12_dwell in coq/tie/SrcProps.v).',
+   note='Trusted: Coq kernel, lexer; the source translator and its target language (coq/tie/PyPrelude.v, PgmState.v, LineTok.v); float summation covered by 1e-9 (dwell) / 2e-4 (float32 fabrication_time) relative '
         'tolerances; for the fabrication-time clause the theorem is the preservation of step lengths by the transformation '
         '(C12_step_lengths_preserved, with C01_replay); the float effects are decided by correspondence.',
    design='5/C12'),
  'C01': dict(
-   technique='Coq proof (induction over the point list, invariant machine-shutter = tracked-shutter) + token-level differential + verified-by-construction replay monitor on femto\'s own .pgm',
+   technique='Coq proof (induction over the point list, invariant machine-shutter = tracked-shutter) + source translator with a proved simulation (the translated write / _format_args / shutter / dwell vs the model) + token-level differential + verified-by-construction replay monitor on femto\'s own .pgm',
    text='Props/C01.v: for every configuration, compiler state, agreeing machine state and 0/1-flagged point list the modelled '
         'write either raises before emitting (feed below the printable limit) or emits a program whose run on the reference '
         'controller visits exactly the formatted transformed points, in order, with each point\'s feed and shutter, ends with '
         'the tracked shutter state, and prints the configured decimals; fmt is within half a last-digit unit of the exact value. '
         'Tie to /repo: femto writes a .pgm for generated matrices (builder paths, lattice walks, exhaustive toggle patterns, '
         'malformed stream) x configurations; the lexed file is compared token by token with the model and replayed on the '
-        'controller model inside Coq.',
-   note='Trusted: Coq kernel, harness/lexer.py, harness/pgm.py (cfg rendering, cos/sin/k read from femto t_matrix), '
+        'controller model inside Coq (also for a write entered with the shutter open). SOURCE TIE: write, _format_args, shutter, '
+        'dwell, instruction are re-translated from /repo/src/femto/pgmcompiler.py on every run and proved to simulate the model '
+        '(Sim_write); SRC_C01_replay states the replay theorem for the translated write.',
+   note='Trusted: Coq kernel, harness/lexer.py, the source translator harness/py2coq.py and its target language (coq/tie/PyPrelude.v, '
+        'PgmState.v with transform_points given as the float32 pipeline of Geo/Rigid.v, LineTok.v), harness/pgm.py (cfg rendering, cos/sin/k read from femto t_matrix), '
         'reference controller Ctl/Machine.v is a specification written for this task; float64 matmul rounding covered by a '
         'one-last-digit tolerance; float32 shift subtraction modelled exactly (rnd32).',
    design='5/C01'),
